@@ -103,6 +103,26 @@ theorem c10_record_of_running_pod_stays {evs : List Ev} {s : St} {c : Rec} {q : 
     · rfl
     · have := this (.inr (.inr hd)) q hq hu; simp [hx] at this
 
+/-- the daemon (Remote.Allocate) takes a record's interfaces for pod instance `u` only when the record is Bind,
+    not being deleted, owned by `u` and not empty; it refuses in every other case -/
+theorem c10_daemon_accepts_only_bound_record_of_that_instance {s t : St} {u : Nat} {ok : Bool}
+    (hs : step s (.dAccept u ok) = some t) :
+    ok = true ↔ ∃ c, s.rcd = some c ∧ c.phase = .bind ∧ c.uid = u ∧ c.del = false ∧ c.allocs ≠ [] := by
+  simp only [step, stepD] at hs
+  split at hs
+  · rename_i h
+    have h' : ok = daemonAccepts s u := by simpa using h
+    rw [h']
+    unfold daemonAccepts
+    cases hr : s.rcd with
+    | none => simp
+    | some c =>
+      simp only [Bool.and_eq_true, Bool.not_eq_true', beq_iff_eq, Option.some.injEq, exists_eq_left']
+      constructor
+      · rintro ⟨⟨⟨h1, h2⟩, h3⟩, h4⟩; exact ⟨h2, h3, h1, by simpa using h4⟩
+      · rintro ⟨h2, h3, h1, h4⟩; exact ⟨⟨⟨h1, h2⟩, h3⟩, by simpa using h4⟩
+  · cases hs
+
 /-! ### (d) failed creation is rolled back -/
 
 /-- between reconciliations of the pod controller every interface in the cloud is somebody else's, named by the
